@@ -3,7 +3,7 @@
    parse_expression and Compiler::compile return a result or a structured error on every
    input; neither panics.
 
-   "All texts" is approximated by seven generated families.  A text is a sequence of *tokens*
+   "All texts" is approximated by nine generated families.  A text is a sequence of *tokens*
    (rendered with single spaces) or, for Markdown documents, a sequence of lines.  Every state
    of this spec is one cell of the table — TLC enumerates them (exhaustively in the MC
    configurations, by seeded simulation for the deep ones) and prints one REPLAY line per cell
@@ -20,6 +20,13 @@
             recursive structs (direct, mutual, through option, through field insertion),
             duplicate fields / enum variants / fact keys, undefined types and callees, wrong
             arity, recursion, missing command blocks, reserved words as names.
+     arity  every kind of callable (function, builtin, finish function, action, recall block in
+            statement and in expression position) with fewer / as many / more arguments than
+            parameters and with a wrongly typed argument; struct / effect / command literals
+            and fact literals with missing, surplus, repeated and reordered fields.
+     card   `match` over types with just under, exactly and over 2^64 inhabitants (structs of
+            bools / of structs / of enums), bare and under option / result, with and without
+            default arms, as statement and as expression.
      mut    token-level mutations of two well-formed base programs: delete / duplicate / swap a
             token, insert an (unbalancing) delimiter, replace a token — at every position.
      repo   the same mutation classes over the repository's own policy documents (token counts
@@ -33,7 +40,7 @@
    predictions are extra oracle strength (differences are drift, not violations).           *)
 EXTENDS Integers, Sequences, FiniteSets, TLC, Json, IOUtils
 
-CONSTANTS Families,     \* subset of {"expr","stmt","defs","mut","repo","doc","nest"}
+CONSTANTS Families,     \* subset of {"expr","stmt","defs","arity","card","mut","repo","doc","nest"}
           GrowDepth,    \* expr: nesting steps beyond the first constructor level
           Stride,       \* repo: every Stride-th token position (offset = Seed % Stride)
           MutStride,    \* mut: every MutStride-th token position of the base programs
@@ -275,6 +282,113 @@ DefCases == {
   <<"enum-empty", <<"enum", "R", "{", "}">>, "err", "any">> }
 
 ---------------------------------------------------------------------------------
+(* arity: every kind of callable applied to fewer, exactly as many, and more arguments than it
+   has parameters, and once to an argument of the wrong type; literals (struct, effect,
+   command, fact key/value lists) with missing, surplus and repeated fields.  The compiler
+   looks parameters up per argument in several places (functions, finish functions, actions,
+   recall blocks in statement and expression position, builtins); none of them may index
+   past the declaration.  Verdict: compiles iff the count and the type match.                *)
+RECURSIVE CommaSep(_)
+CommaSep(items) == IF Len(items) = 0 THEN <<>>
+                   ELSE IF Len(items) = 1 THEN items[1]
+                   ELSE items[1] \o <<",">> \o CommaSep(Tail(items))
+ArgList(n, tok) == CommaSep([i \in 1..n |-> <<tok>>])
+CmdR(policy) ==
+  <<"command", "R", "{", "fields", "{", "a", "int", "}", "seal", "{">> \o RT \o <<"}", "open", "{">> \o RT
+  \o <<"}", "policy", "{">> \o policy \o <<"}",
+     "recall", "rr", "(", "a", "int", ")", "{", "finish", "{", "}", "}",
+     "recall", "r0", "(", ")", "{", "finish", "{", "}", "}", "}">>
+ArityKinds == {"function", "builtin", "finishfn", "action", "recall-stmt", "recall-expr", "recall0-stmt", "recall0-expr"}
+Params(k) == IF k = "builtin" THEN 2 ELSE IF k \in {"recall0-stmt", "recall0-expr"} THEN 0 ELSE 1
+CallSite(k, args) ==
+  CASE k = "function" -> Fn("t", <<"return", "g", "(">> \o args \o <<")">>)
+    [] k = "builtin" -> Fn("t", <<"return", "saturating_add", "(">> \o args \o <<")">>)
+    [] k = "finishfn" -> <<"finish", "function", "t", "(", ")", "{", "ff", "(">> \o args \o <<")", "}">>
+    [] k = "action" -> <<"action", "t", "(", ")", "{", "action", "act", "(">> \o args \o <<")", "}">>
+    [] k = "recall-stmt" -> CmdR(<<"recall", "rr", "(">> \o args \o <<")">>)
+    [] k = "recall-expr" -> CmdR(<<"check", "this", ".", "a", ">", "0", "else", "recall", "rr", "(">> \o args \o <<")">> \o FIN)
+    [] k = "recall0-stmt" -> CmdR(<<"recall", "r0", "(">> \o args \o <<")">>)
+    [] k = "recall0-expr" -> CmdR(<<"check", "this", ".", "a", ">", "0", "else", "recall", "r0", "(">> \o args \o <<")">> \o FIN)
+ArityCells == {<<k, n, "1">> : k \in ArityKinds, n \in 0..3}
+              \cup {<<k, Params(k), "true">> : k \in {x \in ArityKinds : Params(x) > 0}}
+ArityCompiles(c) == c[2] = Params(c[1]) /\ (c[3] = "1" \/ c[2] = 0)
+(* Deviation of the code: a recall call is checked argument by argument against the block's
+   parameters (zip), the *number* of arguments is never compared — `recall rr()` and
+   `recall rr(1, 1)` compile against `recall rr(a int)`.  No verdict is predicted for a recall
+   call with the wrong count (reported to the integrator; it is not a C27 matter).           *)
+ArityVerdict(c) == IF c[1] \in {"recall-stmt", "recall-expr", "recall0-stmt", "recall0-expr"} /\ c[2] # Params(c[1])
+                   THEN "any" ELSE IF ArityCompiles(c) THEN "ok" ELSE "err"
+
+FieldList(fs) == CommaSep([i \in DOMAIN fs |-> <<fs[i][1], ":", fs[i][2]>>])
+FieldSets == [
+  none   |-> <<>>,
+  a      |-> << <<"a", "1">> >>,
+  ab     |-> << <<"a", "1">>, <<"b", "true">> >>,
+  abc    |-> << <<"a", "1">>, <<"b", "true">>, <<"c", "1">> >>,
+  aab    |-> << <<"a", "1">>, <<"a", "2">>, <<"b", "true">> >>,
+  ba     |-> << <<"b", "true">>, <<"a", "1">> >>,
+  atyped |-> << <<"a", "true">>, <<"b", "true">> >> ]
+LiteralKinds == {"struct", "effect", "command"}
+LiteralSite(k, fs) ==
+  CASE k = "struct" -> <<"function", "t", "(", ")", "struct", "S", "{", "return", "S", "{">> \o FieldList(fs) \o <<"}", "}">>
+    [] k = "effect" -> <<"finish", "function", "t", "(", ")", "{", "emit", "Ef", "{">> \o FieldList(fs) \o <<"}", "}">>
+    [] k = "command" -> <<"action", "t", "(", ")", "{", "publish", "C", "{">> \o FieldList(fs) \o <<"}", "}">>
+(* S has fields a int, b bool; Ef and C have the single field a int *)
+LiteralCompiles(k, f) == IF k = "struct" THEN f \in {"ab", "ba"} ELSE f = "a"
+FactCases == {
+  <<"create-ok", <<"create", "F", "[", "k", ":", "1", "]", "=>", "{", "v", ":", "1", "}">>, "ok">>,
+  <<"create-nokey", <<"create", "F", "[", "]", "=>", "{", "v", ":", "1", "}">>, "err">>,
+  <<"create-novalue", <<"create", "F", "[", "k", ":", "1", "]", "=>", "{", "}">>, "err">>,
+  <<"create-novalues", <<"create", "F", "[", "k", ":", "1", "]">>, "err">>,
+  <<"create-extrakey", <<"create", "F", "[", "k", ":", "1", ",", "k2", ":", "2", "]", "=>", "{", "v", ":", "1", "}">>, "err">>,
+  <<"create-extravalue", <<"create", "F", "[", "k", ":", "1", "]", "=>", "{", "v", ":", "1", ",", "w", ":", "2", "}">>, "err">>,
+  <<"create-dupkey", <<"create", "F", "[", "k", ":", "1", ",", "k", ":", "2", "]", "=>", "{", "v", ":", "1", "}">>, "err">>,
+  <<"create-bind", <<"create", "F", "[", "k", ":", "?", "]", "=>", "{", "v", ":", "1", "}">>, "err">>,
+  <<"delete-extrakey", <<"delete", "F", "[", "k", ":", "1", ",", "k2", ":", "2", "]">>, "err">>,
+  <<"delete-nokey", <<"delete", "F", "[", "]">>, "any">>,
+  <<"update-extra", <<"update", "F", "[", "k", ":", "1", "]", "to", "{", "v", ":", "2", ",", "w", ":", "3", "}">>, "err">>,
+  <<"update-empty", <<"update", "F", "[", "k", ":", "1", "]", "to", "{", "}">>, "err">> }
+FactSite(st) == <<"finish", "function", "t", "(", ")", "{">> \o st \o <<"}">>
+
+---------------------------------------------------------------------------------
+(* card: `match` exhaustiveness needs the number of inhabitants of the scrutinee type; for
+   structs that is a product over the fields and reaches 2^64 quickly (8 structs of 8 bools,
+   64 bools, 16 enums of 16 variants).  Types just below, at and above 2^64, bare and under
+   option / result, matched with and without default arms, as statement and as expression. *)
+NumFields(prefix, n, ty) == CommaSep([i \in 1..n |-> <<prefix \o ToString(i)>> \o ty])
+CardTypes == {"flags63", "flags64", "flags65", "big7", "big8", "big9", "enum15", "enum16", "enum17"}
+CardDefs(t) ==
+  CASE t \in {"flags63", "flags64", "flags65"} ->
+         <<"struct", "Big", "{">> \o NumFields("b", IF t = "flags63" THEN 63 ELSE IF t = "flags64" THEN 64 ELSE 65, <<"bool">>) \o <<"}">>
+    [] t \in {"big7", "big8", "big9"} ->
+         <<"struct", "Flags8", "{">> \o NumFields("b", 8, <<"bool">>) \o <<"}", "struct", "Big", "{">>
+         \o NumFields("p", IF t = "big7" THEN 7 ELSE IF t = "big8" THEN 8 ELSE 9, <<"struct", "Flags8">>) \o <<"}">>
+    [] OTHER ->
+         <<"enum", "E16", "{">> \o CommaSep([i \in 1..16 |-> <<"V" \o ToString(i)>>]) \o <<"}", "struct", "Big", "{">>
+         \o NumFields("e", IF t = "enum15" THEN 15 ELSE IF t = "enum16" THEN 16 ELSE 17, <<"enum", "E16">>) \o <<"}">>
+Wrappers == {"bare", "option", "result-ok", "result-err"}
+WrapType(w) == CASE w = "bare" -> <<"struct", "Big">>
+                 [] w = "option" -> <<"option[", "struct", "Big", "]">>
+                 [] w = "result-ok" -> <<"result[", "struct", "Big", ",", "int", "]">>
+                 [] OTHER -> <<"result[", "int", ",", "struct", "Big", "]">>
+MatchForms == {"default-only", "no-arms", "literal-default", "literal-only", "binding", "expr-literal-default", "expr-literal-only"}
+R1 == <<"{", "return", "1", "}">>
+Literal(w) == CASE w = "option" -> <<"None">> [] w = "result-ok" -> <<"Err", "(", "1", ")">>
+                [] w = "result-err" -> <<"Ok", "(", "1", ")">> [] OTHER -> <<"x">>
+Binding(w) == CASE w = "option" -> <<"Some", "(", "y", ")">> [] w = "result-ok" -> <<"Ok", "(", "y", ")">>
+                [] w = "result-err" -> <<"Err", "(", "y", ")">> [] OTHER -> <<"_">>
+MatchBody(f, w) ==
+  CASE f = "default-only" -> <<"match", "x", "{", "_", "=>">> \o R1 \o <<"}">>
+    [] f = "no-arms" -> <<"match", "(", "x", ")", "{", "}">>
+    [] f = "literal-default" -> <<"match", "x", "{">> \o Literal(w) \o <<"=>">> \o R1 \o <<"_", "=>">> \o R1 \o <<"}">>
+    [] f = "literal-only" -> <<"match", "x", "{">> \o Literal(w) \o <<"=>">> \o R1 \o <<"}">>
+    [] f = "binding" -> <<"match", "x", "{">> \o Literal(w) \o <<"=>">> \o R1 \o Binding(w) \o <<"=>">> \o R1 \o <<"}">>
+    [] f = "expr-literal-default" -> <<"let", "v", "=", "match", "x", "{">> \o Literal(w) \o <<"=>", "0", "_", "=>", "1", "}">>
+    [] OTHER -> <<"let", "v", "=", "match", "x", "{">> \o Literal(w) \o <<"=>", "0", "}">>
+CardProgram(t, w, f) ==
+  CardDefs(t) \o <<"function", "t", "(", "x">> \o WrapType(w) \o <<")", "int", "{">> \o MatchBody(f, w) \o <<"return", "2", "}">>
+
+---------------------------------------------------------------------------------
 (* mut / repo: token-level mutation classes *)
 Delims == <<"{", "}", "(", ")", "[", "]", "\"", "/*", "*/", "//", "```", ":", "=>", ",", "?", "option[", "::">>
 Repls  == <<"this", "0", "finish", "struct", "xx", "-", "|">>
@@ -396,7 +510,25 @@ InitDoc  == /\ fam = "doc" /\ depth = 0
 InitNest == /\ fam = "nest" /\ depth = 0
             /\ \E k \in NestKinds, d \in NestDepths : cell = [kind |-> k, depth |-> d]
 
+InitArity ==
+  /\ fam = "arity" /\ depth = 0
+  /\ \/ \E c \in ArityCells :
+          cell = [kind |-> c[1], n |-> c[2], arg |-> c[3]]
+                 @@ TokCell(Prelude \o CallSite(c[1], ArgList(c[2], c[3])), "str", "ok", ArityVerdict(c))
+     \/ \E k \in LiteralKinds, f \in DOMAIN FieldSets :
+          cell = [kind |-> k \o "-literal", fields |-> f]
+                 @@ TokCell(Prelude \o LiteralSite(k, FieldSets[f]), "str", "ok",
+                            IF LiteralCompiles(k, f) THEN "ok" ELSE "err")
+     \/ \E fc \in FactCases :
+          cell = [kind |-> "fact", name |-> fc[1]] @@ TokCell(Prelude \o FactSite(fc[2]), "str", "ok", fc[3])
+InitCard ==
+  /\ fam = "card" /\ depth = 0
+  /\ \E t \in CardTypes, w \in Wrappers, f \in MatchForms :
+       cell = [ty |-> t, wrap |-> w, form |-> f] @@ TokCell(CardProgram(t, w, f), "str", "ok", "any")
+
 Init == \/ "expr" \in Families /\ InitExpr
+        \/ "arity" \in Families /\ InitArity
+        \/ "card" \in Families /\ InitCard
         \/ "stmt" \in Families /\ InitStmt
         \/ "defs" \in Families /\ InitDefs
         \/ "mut" \in Families /\ InitMut
@@ -443,7 +575,7 @@ Spec == Init /\ [][Next]_vars
 Verdicts == {"ok", "err", "any"}
 WellFormed ==
   /\ fam \in Families
-  /\ fam \in {"stmt", "defs", "mut", "doc"} => cell.parse \in Verdicts /\ cell.compile \in Verdicts
+  /\ fam \in {"stmt", "defs", "mut", "doc", "arity", "card"} => cell.parse \in Verdicts /\ cell.compile \in Verdicts
   /\ fam = "expr" => cell.parse \in Verdicts /\ Len(cell.e) > 0
   /\ fam \in {"stmt", "defs", "mut"} => Len(cell.t) > 0
 PlacementTotal == \A k \in StmtKinds, c \in Contexts : StmtCompiles(k, c) \in BOOLEAN
